@@ -142,17 +142,20 @@ func (r *rateLimiter) UpdateRateLimitConditionStatus(upstream string, condition 
 		return nil, fmt.Errorf("limit store for upstream %s upstream shard %v not found", upstream, shardId)
 	}
 
-	upstreamCondition, err := limitStore.Get(condition.Spec.UpstreamCluster, upstreamStateConditionName(condition.Spec.UpstreamCluster))
-	if err != nil {
-		return nil, err
-	}
-
 	mutex := r.upstreamLock[condition.Spec.UpstreamCluster]
 	if mutex == nil {
 		return nil, fmt.Errorf("interval error: upstreamLock not exist")
 	}
 	mutex.Lock()
 	defer mutex.Unlock()
+
+	// the upstream state holds the allocated sum, it must be read inside the critical
+	// section: a store may replace the object on every save, so a pointer fetched
+	// before the lock misses the allocations of reports that were answered meanwhile
+	upstreamCondition, err := limitStore.Get(condition.Spec.UpstreamCluster, upstreamStateConditionName(condition.Spec.UpstreamCluster))
+	if err != nil {
+		return nil, err
+	}
 
 	oldCondition, err := limitStore.Get(condition.Spec.UpstreamCluster, condition.Name)
 	if errors.IsNotFound(err) {
